@@ -240,6 +240,11 @@ def run(ctx):
                 depth = rep % 3
                 inserts = [rng.choice(["extra", "Weight", "weights", "bias2", "dtype", "shape2", "comment", "name", "id"]),
                            "input_type", "output_type", "nodes", "edges", "shape", "version"]
+                # (an unknown key may be a field of a *sibling* class - the bias of an Affine on a Linear, a threshold on a
+                #  leaky integrator - holding the most harmless value imaginable: it is unknown all the same)
+                sib = [f for f in ("bias", "w_in", "v_threshold", "v_leak", "tau", "stride", "groups", "start_dim", "delay")
+                       if f not in base and f not in FIELDS_OF.get(kind, ())]
+                inserts = inserts + rng.sample(sib, min(2, len(sib)))
                 # (an unknown key may also be the *bytes* spelling of a real field name: it is still not that field)
                 if mandatory:
                     inserts = inserts + [rng.choice(mandatory).encode("utf8")]
@@ -258,6 +263,8 @@ def run(ctx):
                             d[key] = []
                         elif isinstance(key, bytes):
                             d[key] = copy.deepcopy(base[key.decode("utf8")])
+                        elif key in ("bias", "w_in", "v_threshold", "v_leak", "tau", "stride", "groups", "start_dim", "delay"):
+                            d[key] = [np.zeros(2), 0, 0.0, np.array(0.0), np.ones(2), 1][rng.randrange(6)]
                         else:
                             d[key] = [1, "x", np.zeros(2), {}, {}][rng.randrange(5)]      # ({}: an empty group in a file)
                     wrapped = d
